@@ -277,6 +277,21 @@ CHECKS = {
         "Liveness as bounded progress on the virtual clock; one open known finding (F-12) is keyed by mechanism.",
         "DESIGN.md 4 C18",
     ),
+    "C19": (
+        "sync+sim",
+        "exploration",
+        "runtime monitoring: waiting-client harness (the body is withheld until a 100 Continue or a final response is on "
+        "the wire) + positional attribution of interim responses + reference-parser oracle; schedule part under the "
+        "controlled scheduler",
+        "Input part: pipelines mixing ten request kinds (expecting with length / chunked / no body / refused / too large / "
+        "HTTP/1.0 / other Expect values, plain) as waiting and non-waiting clients over one-piece, byte-wise, structural "
+        "and random segmentations, lookahead 0/1, eager and lazy worker. Schedule part: the worker finishing the preceding "
+        "request races the I/O thread receiving the expecting head (single-pre-emption enumeration, random, PCT). Checked: "
+        "the wire parses; each 100 is attributed to the request whose turn it is; at most one, none unasked or for "
+        "HTTP/1.0; no client left waiting at quiescence; every request executed or refused once with its own fields.",
+        "Trusts the WaitFor client model and vf/ref/request.py.",
+        "DESIGN.md 4 C19",
+    ),
 }
 
 PENDING = {}
